@@ -150,6 +150,7 @@ func idsOf(ms []storage.Message) string {
 
 func c09Scenario(c *fw.Ctx, sp c09Spec) schedScenario {
 	run := func(cfg vsched.Config) (res schedResult) {
+		probeProb := ""
 		var hist []porcupine.Operation
 		var hmu sync.Mutex
 		var finalLists map[string]string
@@ -160,6 +161,7 @@ func c09Scenario(c *fw.Ctx, sp c09Spec) schedScenario {
 			var sh *sys.StoreH
 			initIDs := map[string]string{}
 			finished := make([]bool, len(sp.Threads))
+			probeProb = ""
 			clock := 0
 			doOp := func(client int, op c09Op) {
 				st := sh.Store
@@ -270,13 +272,57 @@ func c09Scenario(c *fw.Ctx, sp c09Spec) schedScenario {
 					}
 				}
 				var ths []vsched.Thread
+				doneCh := make([]chan struct{}, len(sp.Threads))
 				for ti, ops := range sp.Threads {
 					ti, ops := ti, ops
+					doneCh[ti] = make(chan struct{})
 					ths = append(ths, vsched.Thread{Name: fmt.Sprintf("client%d", ti), F: func() {
 						for _, op := range ops {
 							doOp(ti, op)
 						}
 						finished[ti] = true
+						close(doneCh[ti])
+					}})
+				}
+				if sp.Store.Backend == "mem" && sp.Store.MaxKB > 0 {
+					// accounting probe: when every client has finished, a message that fills the
+					// store exactly to its limit is delivered to a mailbox of its own; if the size
+					// enforcer's running total is right nothing else leaves the store
+					ths = append(ths, vsched.Thread{Name: "accounting-probe", F: func() {
+						for _, ch := range doneCh {
+							<-ch
+						}
+						limit := int64(sp.Store.MaxKB) * 1024
+						before := map[string]string{}
+						var live int64
+						for _, mb := range c09Boxes(sp) {
+							ms, err := sh.Store.GetMessages(mb)
+							if err != nil {
+								return
+							}
+							before[mb] = idsOf(ms)
+							for _, m := range ms {
+								live += m.Size()
+							}
+						}
+						room := limit - live
+						if room < 40 {
+							return
+						}
+						if _, err := sh.Store.AddMessage(sys.Delivery("zz-probe", "p@x.test", []string{"p@x.test"}, "probe", sizedBody(int(room)), time.Now())); err != nil {
+							probeProb = "the probe delivery failed: " + err.Error()
+							return
+						}
+						for _, mb := range c09Boxes(sp) {
+							ms, _ := sh.Store.GetMessages(mb)
+							if idsOf(ms) != before[mb] {
+								probeProb = fmt.Sprintf("the store held %d of %d bytes; a %d-byte message (which fits exactly) was delivered to another mailbox, and mailbox %q went from [%s] to [%s]: the size enforcer's running total has drifted from what the store holds", live, limit, room, mb, before[mb], idsOf(ms))
+								return
+							}
+						}
+						if ms, _ := sh.Store.GetMessages("zz-probe"); len(ms) != 1 {
+							probeProb = fmt.Sprintf("the store held %d of %d bytes; a %d-byte message (which fits exactly) was evicted by its own delivery: the size enforcer's running total has drifted", live, limit, room)
+						}
 					}})
 				}
 				cleanup := func() {
@@ -350,6 +396,9 @@ func c09Scenario(c *fw.Ctx, sp c09Spec) schedScenario {
 			outc = append(outc, mb+"="+abstractIDs(finalLists[mb], hist))
 		}
 		res.Outcome = strings.Join(outc, " ")
+		if probeProb != "" {
+			res.Probs = append(res.Probs, [2]string{"size-accounting-drifted", probeProb})
+		}
 		if sp.NoLin {
 			if sp.LimitB > 0 && finalBytes > sp.LimitB {
 				res.Probs = append(res.Probs, [2]string{"size-limit-exceeded", fmt.Sprintf("after all operations finished the store holds %d bytes, limit %d\nhistory:\n  %s", finalBytes, sp.LimitB, strings.Join(hs, "\n  "))})
